@@ -20,7 +20,7 @@ func init() {
 	core.Register(&core.Prop{
 		ID: "C18", Level: "exploration", Race: true,
 		Technique: "Go race detector (harness and library built with -race; verdict = WARNING: DATA RACE blocks counted in the GORACE log files) + determinism monitor: every concurrent call's result compared with the result of the same call executed alone",
-		Rule: "per case one shared error (PRNG tree depth<=6; every second one decoded from the wire first); reference results are computed once sequentially, then G goroutines (quick 16, thorough 64) are released together and each runs R rounds (3 / 10) of 14 observer operations in its own PRNG order, with no synchronisation inside the measured region. " +
+		Rule: "per case one shared error (PRNG tree depth<=6; every second one decoded from the wire first); reference results are computed sequentially on a twin built from the same descriptor (the shared value itself stays cold: nothing touches it before the goroutines start), then G goroutines (quick 16, thorough 64) are released together and each runs R rounds (3 / 10) of 14 observer operations in its own PRNG order, with no synchronisation inside the measured region. " +
 			"Non-trivial = case in which operations of different goroutines on the same error overlapped in time (measured from per-operation timestamps); distinct = kind-tree signature x local/decoded.",
 		Cases: tierN(320, 5000),
 		Floor: tierN(100, 1000),
@@ -87,14 +87,25 @@ func runC18(c *core.Ctx) {
 	g := gen.New(c.R)
 	t := g.Tree(1 + c.R.Intn(6))
 	coverTree(c, t)
-	e, m, ok := safeBuild(c, t)
-	if !ok {
-		return
+	// The shared value stays COLD: nothing observes it before the
+	// goroutines are released (a lazily filled cache inside an error object
+	// would otherwise be warmed by the reference computation and the race
+	// hidden). The "executed alone" reference is computed on a twin built
+	// from the same descriptor, and again on the shared value afterwards.
+	// (both built from the same call site, so that the captured stacks are identical)
+	var built [2]error
+	var maps [2]gen.Built
+	for i := range built {
+		var ok bool
+		if built[i], maps[i], ok = safeBuild(c, t); !ok {
+			return
+		}
 	}
+	twin, m, e := built[0], maps[0], built[1]
 	mode := "local"
 	if c.Case%2 == 1 {
 		mode = "decoded"
-		if p := core.Try(func() { e, _ = sim.Hop(e) }); p != nil {
+		if p := core.Try(func() { twin, _ = sim.Hop(twin); e = sim.DecBytes(sim.EncBytes(twin)) }); p != nil {
 			return
 		}
 	}
@@ -106,9 +117,9 @@ func runC18(c *core.Ctx) {
 	var wire []byte
 	want := make([]string, len(c18ops))
 	if p := core.Try(func() {
-		wire = sim.EncBytes(e)
+		wire = sim.EncBytes(twin)
 		for i, op := range c18ops {
-			want[i] = op.f(e, refs, wire)
+			want[i] = op.f(twin, refs, wire)
 		}
 	}); p != nil {
 		c.Violate("panic/sequential", "an operation panicked when executed alone", fmt.Sprintf("%s\n%v", t, p))
@@ -166,6 +177,16 @@ func runC18(c *core.Ctx) {
 		}
 		all = append(all, res[gi].ivs...)
 		c.Count("concurrent-operations", len(res[gi].ivs))
+	}
+	// the same calls executed alone on the shared value afterwards
+	if p := core.Try(func() {
+		for i, op := range c18ops {
+			if got := op.f(e, refs, wire); got != want[i] {
+				c.Violate("nondeterministic-after/"+op.name, "a call executed alone after the concurrent phase returns another result than on a fresh identical error", fmt.Sprintf("%s (%s)", t, mode))
+			}
+		}
+	}); p != nil {
+		c.Violate("panic/sequential-after", "an operation panicked when executed alone after the concurrent phase", fmt.Sprintf("%s\n%v", t, p))
 	}
 	// overlap evidence
 	sort.Slice(all, func(i, j int) bool { return all[i].from < all[j].from })
